@@ -148,7 +148,8 @@ type GhostVar struct {
 }
 
 type ContractDB struct {
-	Funcs      map[string]*FuncContract
+	Funcs      map[string][]*FuncContract // several contracts per function are allowed when they serve different properties
+	FileErrs   map[string]error
 	SpecFuncs  map[string]*SpecFunc
 	SpecTypes  map[string]*SpecType
 	Lemmas     []*Lemma
@@ -158,7 +159,7 @@ type ContractDB struct {
 }
 
 func NewContractDB() *ContractDB {
-	return &ContractDB{Funcs: map[string]*FuncContract{}, SpecFuncs: map[string]*SpecFunc{}, SpecTypes: map[string]*SpecType{}, GhostVars: map[string]*GhostVar{}}
+	return &ContractDB{Funcs: map[string][]*FuncContract{}, FileErrs: map[string]error{}, SpecFuncs: map[string]*SpecFunc{}, SpecTypes: map[string]*SpecType{}, GhostVars: map[string]*GhostVar{}}
 }
 
 // ---------------------------------------------------------------------------------------------
@@ -776,10 +777,7 @@ func (db *ContractDB) ParseFile(path string, pkgPath string) error {
 			// the key may contain spaces? no.
 			key := expandFuncKey(fields[0], pkgPath)
 			cur = &FuncContract{Key: key, Pkg: pkgPath, Panics: "ignored", Loops: map[string]*LoopSpec{}, File: path, Line: d.line, Opts: map[string]string{}}
-			if old, dup := db.Funcs[key]; dup {
-				return fail(d, fmt.Errorf("duplicate contract for %s (first at %s:%d)", key, old.File, old.Line))
-			}
-			db.Funcs[key] = cur
+			db.Funcs[key] = append(db.Funcs[key], cur)
 			for i := 1; i < len(fields); i++ {
 				if fields[i] == "props" {
 					for _, p := range fields[i+1:] {
@@ -1087,6 +1085,53 @@ func (db *ContractDB) ParseFile(path string, pkgPath string) error {
 		case "effectfree":
 			for _, f := range strings.Fields(d.text) {
 				db.EffectFree = append(db.EffectFree, f)
+			}
+		}
+	}
+	return nil
+}
+
+// Lookup returns the contract of a function to be used while checking property prop: the contract serving that
+// property if there is one, else a property-independent (trusted / library) contract, else the first contract
+// of another property (sorted by its first property id).
+func (db *ContractDB) Lookup(key, prop string) *FuncContract {
+	cs := db.Funcs[key]
+	if len(cs) == 0 {
+		return nil
+	}
+	for _, c := range cs {
+		if hasProp(c.Props, prop) {
+			return c
+		}
+	}
+	for _, c := range cs {
+		if len(c.Props) == 0 {
+			return c
+		}
+	}
+	best := cs[0]
+	for _, c := range cs[1:] {
+		if len(c.Props) > 0 && len(best.Props) > 0 && c.Props[0] < best.Props[0] {
+			best = c
+		}
+	}
+	return best
+}
+
+// Validate reports duplicate contracts (two contracts of one function serving the same property).
+func (db *ContractDB) Validate() error {
+	for key, cs := range db.Funcs {
+		seen := map[string]*FuncContract{}
+		for _, c := range cs {
+			ps := c.Props
+			if len(ps) == 0 {
+				ps = []string{""}
+			}
+			for _, p := range ps {
+				if o, dup := seen[p]; dup {
+					return fmt.Errorf("%s:%d: duplicate contract for %s serving property %q (first at %s:%d)", c.File, c.Line, key, p, o.File, o.Line)
+				}
+				seen[p] = c
 			}
 		}
 	}
